@@ -4,9 +4,10 @@ import Proofs.C07Machine
 # C07 — frames are written whole (property theorems)
 
 Model: `Model/Writer.lean` (conn.go: deadlineContextWriter, writeCoalescer, exec's reaction to a
-write error). One `write` action = one socket write; the environment cuts it at any byte.
-All theorems quantify over every action list (every number of writers, every interleaving, every
-cut position, every cancellation point).
+write error). The transport takes one socket Write in PIECES (`enter ; piece* ; endWrite`) with any other
+action in between; what keeps frames whole is the modelled mechanism (one-slot semaphore / single flusher).
+All theorems quantify over every action list (every number of writers, every interleaving, every piece
+size, every cut position, every cancellation point, both writers) of the serialised machine.
 -/
 namespace C07
 open Writer
@@ -27,69 +28,220 @@ theorem C07_attribution_ok_is_whole (ls : List Nat) (n i : Nat) (r : Nat × Bool
 
 example : attrib [10, 20, 30] 25 = [(10, true), (15, false), (0, false)] := by decide
 
-/-- **whole frames**: in every reachable state the wire consists of pieces of distinct requests' frames,
-    each piece a prefix of its frame; and an incomplete piece implies that the connection is closed or
-    that the writer that was cut is on its way to `closeWithError` (which nothing can block). -/
-theorem C07_whole_frames (lens : Nat → Nat) (as : List Act) (s : St) (h : run lens init as = some s) :
-    (∀ c ∈ s.wire, c.n ≤ c.len ∧ c.len = lens c.id) ∧ (s.wire.map (·.id)).Nodup ∧
-    (∀ c ∈ s.wire, c.n < c.len → s.closed = true ∨ s.pc c.id = .wrote c.n false ∨ s.pc c.id = .failing) := by
-  have inv := inv_run lens as init s (inv_init lens) h
-  exact ⟨fun c hc => ⟨(inv.bound c hc).2.1, (inv.bound c hc).2.2⟩, inv.nodup, inv.torn⟩
+theorem nodup_reverse' {α} (l : List α) (h : l.Nodup) : l.reverse.Nodup := by
+  unfold List.Nodup at *
+  rw [List.pairwise_reverse]
+  exact h.imp (fun hab e => hab e.symm)
 
-theorem C07_torn_writer_progress (lens : Nat → Nat) (s : St) (w n : Nat) (h : s.pc w = .wrote n false) :
-    ∃ s1 s2, step lens s (.ret w) = some s1 ∧ step lens s1 (.close w) = some s2 ∧ s2.closed = true :=
-  torn_writer_can_close lens s w n h
+/-- **mutual exclusion** (the semaphore / the single flusher): in every reachable state at most one writer's
+    buffer is inside the socket Write. -/
+theorem C07_single_writer_in_socket (cfg : Cfg) (hser : cfg.serialised = true) (as : List Act) (s : St)
+    (h : run cfg init as = some s) (w w' a b : Nat) (hw : s.pc w = .inWrite a) (hw' : s.pc w' = .inWrite b) :
+    w = w' := by
+  have inv := inv_run cfg hser as init s (inv_init cfg) h
+  have h1 := inv.mutex w a hw
+  have h2 := inv.mutex w' b hw'
+  rw [h1] at h2
+  exact Option.some.inj h2
 
-/-- a caller is told its write succeeded only if its whole frame is on the wire -/
-theorem C07_success_means_whole (lens : Nat → Nat) (as : List Act) (s : St) (h : run lens init as = some s)
-    (w : Nat) (hpos : 0 < lens w) (hok : s.pc w = .done true) : ⟨w, lens w, lens w⟩ ∈ s.wire :=
-  (inv_run lens as init s (inv_init lens) h).okWhole w 0 (Or.inr hok) hpos
+/-- **frames are never interleaved**, whatever the transport does inside Write: in every reachable state the
+    byte stream the transport received (`s.wire`, pieces in arrival order) is the concatenation of
+    prefixes of DISTINCT frames, each starting at byte 0 of its frame and not longer than it. -/
+theorem C07_frames_not_interleaved (cfg : Cfg) (hser : cfg.serialised = true) (as : List Act) (s : St)
+    (h : run cfg init as = some s) :
+    ∃ cs : List Chunk, s.wire.flatMap Piece.bytes = cs.flatMap Chunk.bytes ∧
+      (∀ c ∈ cs, c.start = 0 ∧ 0 < c.n ∧ c.n ≤ cfg.lens c.id) ∧ (cs.map (·.id)).Nodup := by
+  have inv := inv_run cfg hser as init s (inv_init cfg) h
+  refine ⟨(glue s.wire).reverse, (glue_bytes s.wire).symm, ?_, ?_⟩
+  · intro c hc
+    have hc' : c ∈ glue s.wire := by simpa using hc
+    obtain ⟨h0, hpos, hn⟩ := inv.acc.acct c hc'
+    exact ⟨h0, hpos, by rw [hn]; exact inv.acc.bound c.id⟩
+  · rw [List.map_reverse]
+    exact nodup_reverse' _ inv.acc.nodup
 
-/-- a request whose context ended before writing began leaves no bytes -/
-theorem C07_cancel_before_start_no_bytes (lens : Nat → Nat) (as : List Act) (s : St)
-    (h : run lens init as = some s) (w : Nat) (hc : s.pc w = .cancelled) : ∀ c ∈ s.wire, c.id ≠ w :=
-  (inv_run lens as init s (inv_init lens) h).fresh w (Or.inr (Or.inr hc))
+/-- the same as a decidable check (what the driver's monitor evaluates on real byte streams) -/
+theorem C07_framed (cfg : Cfg) (hser : cfg.serialised = true) (as : List Act) (s : St)
+    (h : run cfg init as = some s) : framed cfg.lens (glue s.wire) = true :=
+  framed_of_inv cfg s (inv_run cfg hser as init s (inv_init cfg) h)
+
+/-! ### the monitor's online check of a byte stream (`Writer.scan`, used by the driver on `trace2` lines) -/
+
+/-- soundness of the monitor w.r.t. the machine: it accepts the byte stream of every reachable state (so a
+    rejected stream is not a behaviour of the model: no false alarm relative to the model) … -/
+theorem C07_monitor_accepts_reachable (cfg : Cfg) (hser : cfg.serialised = true) (as : List Act) (s : St)
+    (h : run cfg init as = some s) : scan cfg.lens s.wire = some (glue s.wire) :=
+  scan_run cfg hser as init s (inv_init cfg) rfl h
+
+/-- … what it accepts is framed (distinct frame prefixes, each from byte 0: not interleaved) … -/
+theorem C07_monitor_accept_means_framed (lens : Nat → Nat) (wire : List Piece) (cs : List Chunk)
+    (h : scan lens wire = some cs) : cs = glue wire ∧ (wire ≠ [] → framed lens cs = true) :=
+  scanFrom_some lens wire [] cs h
+
+/-- … and a rejection names a prefix of the byte stream that is not framed (the concrete failing history) -/
+theorem C07_monitor_reject_means_unframed_prefix (lens : Nat → Nat) (wire : List Piece)
+    (h : scan lens wire = none) : ∃ pre, pre <+: wire ∧ framed lens (glue pre) = false :=
+  scanFrom_none lens wire [] h
+
+/-- clause `bytes-after-return`: once a request has returned, its control state is final and no byte of its
+    frame reaches the wire any more -/
+theorem C07_no_bytes_after_return (cfg : Cfg) (hser : cfg.serialised = true) (as bs : List Act) (s s' : St)
+    (h : run cfg init as = some s) (w n : Nat) (ok : Bool) (hd : s.pc w = .done n ok)
+    (h' : run cfg s bs = some s') :
+    s'.pc w = .done n ok ∧ s'.wire.filter (·.id = w) = s.wire.filter (·.id = w) :=
+  done_run cfg hser w n ok bs s s' (inv_run cfg hser as init s (inv_init cfg) h) hd h'
+
+/-- the semaphore is NECESSARY: the same machine without it (`serialised := false`) interleaves two frames
+    on a transport that takes a Write in pieces, while both writers are told `n == len, err == nil`. -/
+theorem C07_cex_without_semaphore :
+    ∃ s, run { lens := fun _ => 10, coalesce := false, serialised := false } init cexScheduleNoSem = some s ∧
+      s.wire = [⟨1, 0, 4⟩, ⟨2, 0, 10⟩, ⟨1, 4, 6⟩] ∧ framed (fun _ => 10) (glue s.wire) = false ∧
+      s.pc 1 = .wrote 10 true ∧ s.pc 2 = .wrote 10 true := by
+  refine ⟨_, rfl, ?_, ?_, ?_, ?_⟩ <;> decide
+
+/-- … and that schedule is not a behaviour of the serialised machine -/
+theorem C07_semaphore_blocks_second_writer :
+    run { lens := fun _ => 10, coalesce := false } init cexScheduleNoSem = none := by decide
+
+/-- **whole frames**: in every reachable state every chunk on the wire is a prefix of a distinct frame, and
+    an incomplete one implies that its Write is still in progress, or the writer that was cut is on its way to
+    `closeWithError` (which nothing can block), or the connection is closing (`c.closed` set: a caller is
+    inside closeWithError — and can finish, `C07_closing_progress` — or the socket is closed). -/
+theorem C07_whole_frames (cfg : Cfg) (hser : cfg.serialised = true) (as : List Act) (s : St)
+    (h : run cfg init as = some s) :
+    (∀ c ∈ glue s.wire, c.start = 0 ∧ c.n ≤ cfg.lens c.id) ∧ ((glue s.wire).map (·.id)).Nodup ∧
+    (∀ c ∈ glue s.wire, c.n < cfg.lens c.id →
+      s.closing = true ∨ s.pc c.id = .inWrite c.n ∨ s.pc c.id = .wrote c.n false ∨ s.pc c.id = .failing c.n) := by
+  have inv := inv_run cfg hser as init s (inv_init cfg) h
+  refine ⟨fun c hc => ?_, inv.acc.nodup, fun c hc hlt => ?_⟩
+  · obtain ⟨h0, _, hn⟩ := inv.acc.acct c hc
+    exact ⟨h0, by rw [hn]; exact inv.acc.bound c.id⟩
+  · obtain ⟨_, hpos, hn⟩ := inv.acc.acct c hc
+    cases hp : s.pc c.id with
+    | idle => simp [hp, Pc.sent] at hn; omega
+    | waiting => simp [hp, Pc.sent] at hn; omega
+    | queued => simp [hp, Pc.sent] at hn; omega
+    | cancelled => simp [hp, Pc.sent] at hn; omega
+    | inWrite off => simp [hp, Pc.sent] at hn; simp [hn]
+    | failing n => simp [hp, Pc.sent] at hn; simp [hn]
+    | closer n => exact Or.inl (inv.closerClosing c.id n hp)
+    | wrote n ok =>
+      simp [hp, Pc.sent] at hn
+      cases ok with
+      | false => simp [hn]
+      | true => have := inv.okFull c.id n (Or.inl hp); omega
+    | done n ok =>
+      simp [hp, Pc.sent] at hn
+      cases ok with
+      | false => exact Or.inl (inv.failedClosing c.id n hp (by omega))
+      | true => have := inv.okFull c.id n (Or.inr hp); omega
+
+/-- clause `torn-but-open` (evaluated at the check points `i` of a trace: socket open, nobody inside
+    closeWithError, i.e. not closing, and — at quiescence — no caller between its failed write and
+    closeWithError): every incomplete frame on the wire is one whose Write is still in progress. -/
+theorem C07_quiescent_open_means_whole (cfg : Cfg) (hser : cfg.serialised = true) (as : List Act) (s : St)
+    (h : run cfg init as = some s) (hopen : s.closing = false)
+    (hq : ∀ w n, s.pc w ≠ .wrote n false ∧ s.pc w ≠ .failing n) :
+    ∀ c ∈ glue s.wire, c.n < cfg.lens c.id → s.pc c.id = .inWrite c.n := by
+  intro c hc hlt
+  rcases (C07_whole_frames cfg hser as s h).2.2 c hc hlt with h1 | h1 | h1 | h1
+  · rw [hopen] at h1; cases h1
+  · exact h1
+  · exact absurd h1 (hq c.id c.n).1
+  · exact absurd h1 (hq c.id c.n).2
+
+theorem C07_torn_writer_progress (cfg : Cfg) (s : St) (w n : Nat) (h : s.pc w = .wrote n false) :
+    ∃ s1 s2, step cfg s (.ret w) = some s1 ∧ step cfg s1 (.close w) = some s2 ∧ s2.closing = true :=
+  torn_writer_can_close cfg s w n h
+
+/-- a connection that is closing has its socket closed already or a caller inside closeWithError that can
+    close it (in the model nothing blocks that step; in the code it waits only for writers that finish) -/
+theorem C07_closing_progress (cfg : Cfg) (hser : cfg.serialised = true) (as : List Act) (s : St)
+    (h : run cfg init as = some s) (hc : s.closing = true) :
+    s.closed = true ∨ ∃ w s1, step cfg s (.closeFinish w) = some s1 ∧ s1.closed = true := by
+  have inv := inv_run cfg hser as init s (inv_init cfg) h
+  rcases inv.closerEx hc with h1 | ⟨w, n, hw⟩
+  · exact Or.inl h1
+  · obtain ⟨s1, h1, h2⟩ := closer_can_finish cfg s w n hw
+    exact Or.inr ⟨w, s1, h1, h2⟩
+
+/-- a caller is told its write succeeded only if its whole frame is on the wire (in one piece, once) -/
+theorem C07_success_means_whole (cfg : Cfg) (hser : cfg.serialised = true) (as : List Act) (s : St)
+    (h : run cfg init as = some s) (w n : Nat) (hpos : 0 < cfg.lens w)
+    (hok : s.pc w = .wrote n true ∨ s.pc w = .done n true) : ⟨w, 0, cfg.lens w⟩ ∈ glue s.wire := by
+  have inv := inv_run cfg hser as init s (inv_init cfg) h
+  have hn := inv.okFull w n hok
+  have hsent : (s.pc w).sent = cfg.lens w := by rcases hok with e | e <;> simp [e, Pc.sent, hn]
+  obtain ⟨c, hc, hid⟩ := inv.acc.pres w (by omega)
+  obtain ⟨h0, _, hcn⟩ := inv.acc.acct c hc
+  have : c = ⟨w, 0, cfg.lens w⟩ := by
+    cases c; simp_all
+  exact this ▸ hc
+
+/-- a request whose context ended before writing began leaves no bytes: no piece on the wire is its -/
+theorem C07_cancel_before_start_no_bytes (cfg : Cfg) (hser : cfg.serialised = true) (as : List Act) (s : St)
+    (h : run cfg init as = some s) (w : Nat) (hc : s.pc w = .cancelled ∨ s.pc w = .done 0 false) :
+    ∀ p ∈ s.wire, p.id ≠ w := by
+  have inv := inv_run cfg hser as init s (inv_init cfg) h
+  intro p hp hid
+  obtain ⟨c, hcm, hcid⟩ := glue_has_piece s.wire p hp
+  obtain ⟨_, hpos, hn⟩ := inv.acc.acct c hcm
+  rw [hcid, hid] at hn
+  rcases hc with e | e <;> simp [e, Pc.sent] at hn <;> omega
+
+theorem closed_step (cfg : Cfg) (s s' : St) (a : Act) (hc : s.closed = true) (hs : step cfg s a = some s') :
+    s'.wire = s.wire ∧ s'.closed = true := by
+  cases a <;> simp only [step] at hs <;> (try split at hs) <;> (try split at hs) <;>
+    (try (simp at hs)) <;> (try (injection hs with hs; subst hs; simp_all))
+  all_goals (first | (subst hs; simp_all) | skip)
 
 /-- once the connection is closed nothing more reaches the wire -/
-theorem C07_nothing_after_close (lens : Nat → Nat) : ∀ (as : List Act) (s s' : St),
-    s.closed = true → run lens s as = some s' → s'.wire = s.wire ∧ s'.closed = true
+theorem C07_nothing_after_close (cfg : Cfg) : ∀ (as : List Act) (s s' : St),
+    s.closed = true → run cfg s as = some s' → s'.wire = s.wire ∧ s'.closed = true
   | [], s, s', hc, hr => by simp [run] at hr; subst hr; exact ⟨rfl, hc⟩
   | a :: as, s, s', hc, hr => by
     simp only [run] at hr
     split at hr
     · rename_i s1 hs1
-      have h1 : s1.wire = s.wire ∧ s1.closed = true := by
-        cases a with
-        | submit w c => simp only [step] at hs1; split at hs1 <;> simp at hs1; subst hs1; exact ⟨rfl, hc⟩
-        | write w k =>
-          simp only [step] at hs1
-          split at hs1
-          · rename_i hcond
-            have hk : k = 0 := hcond.2.2 hc
-            simp at hs1; subst hs1; simp [hk, hc]
-          · simp at hs1
-        | ret w => simp only [step] at hs1; split at hs1 <;> simp at hs1 <;> subst hs1 <;> exact ⟨rfl, hc⟩
-        | close w => simp only [step] at hs1; split at hs1 <;> simp at hs1; subst hs1; exact ⟨rfl, rfl⟩
-      have := C07_nothing_after_close lens as s1 s' h1.2 hr
+      have h1 := closed_step cfg s s1 a hc hs1
+      have := C07_nothing_after_close cfg as s1 s' h1.2 hr
       exact ⟨this.1.trans h1.1, this.2⟩
     · simp at hr
 
 /-- FULL STATEMENT (fails on the unchanged code): "after a partial write no further frame is written on
-    that connection", i.e. in every reachable state only the LAST piece on the wire may be incomplete.
-    Counterexample (known finding KF-C07-1, replayed on the real code): writer 1's write is cut after 4 of
-    10 bytes; it releases the semaphore / the flusher takes the next batch before writer 1 has reached
-    `closeWithError`; writer 2's complete frame follows the torn one on a connection that is not closed. -/
+    that connection", i.e. in every reachable state only the NEWEST chunk on the wire may be incomplete
+    (`onlyLastTorn`). Counterexample (known finding KF-C07-1, replayed on the real code): writer 1's write
+    is cut after 4 of 10 bytes; it releases the semaphore / the flusher takes the next batch before writer
+    1 has closed the socket (it is inside `closeWithError`, which first tells the outstanding calls and is held
+    up by exactly those writers); writer 2's complete frame follows the torn one on a socket that is not closed. -/
 def cexSchedule : List Act := cexScheduleD
 
 theorem C07_cex_frame_after_partial :
-    ∃ s, run (fun _ => 10) init cexSchedule = some s ∧
-      s.wire = [⟨1, 10, 4⟩, ⟨2, 10, 10⟩] ∧ s.closed = false ∧ wholeFrames s.wire = false := by
+    ∃ s, run { lens := fun _ => 10, coalesce := false } init cexSchedule = some s ∧
+      s.wire = [⟨1, 0, 4⟩, ⟨2, 0, 10⟩] ∧ s.closed = false ∧ onlyLastTorn (fun _ => 10) (glue s.wire) = false := by
+  refine ⟨_, rfl, ?_, ?_, ?_⟩ <;> decide
+
+/-- the same with the coalescing writer: the next flush is written behind the torn frame -/
+theorem C07_cex_frame_after_partial_coalesced :
+    ∃ s, run { lens := fun _ => 10, coalesce := true } init
+        [.submit 1, .enqueue 1, .tick, .enter 1, .submit 2, .piece 1 4, .endWrite 1 false, .enqueue 2, .tick,
+         .ret 1, .close 1, .enter 2, .piece 2 10, .endWrite 2 true] = some s ∧
+      s.wire = [⟨1, 0, 4⟩, ⟨2, 0, 10⟩] ∧ s.closed = false ∧ onlyLastTorn (fun _ => 10) (glue s.wire) = false := by
   refine ⟨_, rfl, ?_, ?_, ?_⟩ <;> decide
 
 /-- proved part: the frame-after-partial can only be written BEFORE the close; combined with
-    `C07_whole_frames` (torn ⇒ closed or writer about to close) and `C07_nothing_after_close`. -/
-theorem C07_nothing_after_partial_partial (lens : Nat → Nat) (as bs : List Act) (s s' : St)
-    (h : run lens init as = some s) (hc : s.closed = true) (h' : run lens s bs = some s') :
-    s'.wire = s.wire := (C07_nothing_after_close lens bs s s' hc h').1
+    `C07_whole_frames` (torn ⇒ closed, or Write in progress, or the writer is about to close) and
+    `C07_nothing_after_close`. -/
+theorem C07_nothing_after_partial_partial (cfg : Cfg) (as bs : List Act) (s s' : St)
+    (_h : run cfg init as = some s) (hc : s.closed = true) (h' : run cfg s bs = some s') :
+    s'.wire = s.wire := (C07_nothing_after_close cfg bs s s' hc h').1
+
+/-- non-vacuity: a coalesced flush of three frames, the second cut inside, everything accounted for -/
+example : ∃ s, run { lens := fun w => 10 * w, coalesce := true } init
+    [.submit 1, .submit 2, .submit 3, .enqueue 1, .enqueue 2, .enqueue 3, .tick, .enter 1, .piece 1 3, .piece 1 7,
+     .endWrite 1 true, .enter 2, .piece 2 5, .endWrite 2 false, .ret 1, .ret 2, .ret 3, .close 3, .close 2, .closeFinish 3] = some s ∧
+    glue s.wire = [⟨2, 0, 5⟩, ⟨1, 0, 10⟩] ∧ s.pc 1 = .done 10 true ∧ s.pc 2 = .done 5 false ∧
+    s.pc 3 = .done 0 false ∧ s.closed = true := by
+  refine ⟨_, rfl, ?_, ?_, ?_, ?_, ?_⟩ <;> decide
 
 end C07
